@@ -156,7 +156,7 @@ var (
 		{Name: "whitespace", Pattern: `[ \t]+`},
 	})
 
-	basicParser = participle.MustBuild[basicProgram](
+	basicParser = mustBuild[basicProgram](
 		participle.Lexer(basicLexer),
 		participle.CaseInsensitive("Ident"),
 		participle.Unquote("String"),
